@@ -384,3 +384,253 @@ func runPL3(c *load.Ctx, r *report.RuleResult) {
 		}
 	}
 }
+
+func init() {
+	register(&Rule{ID: "PL-4", Min: 3, Run: runPL4,
+		Doc: "a pooled object is not touched after it went back to the pool: in every function that puts an object into a pool, no use of that object (method call, field access) is executed after the Put — counting deferred calls in their real last-in-first-out order — so reset() runs before Put, never after"})
+	register(&Rule{ID: "SW-3", Min: 2, Run: runSW3,
+		Doc: "once-only initialisation is inherited from sync.Once: every Do method of the once-wrappers in internal/sync runs the caller's function only inside the function value it hands to (*sync.Once).Do, stores the results there, and returns the stored results afterwards — so the first use completes before any caller sees a result, and it happens exactly once"})
+}
+
+func runPL4(c *load.Ctx, r *report.RuleResult) {
+	for _, fn := range c.ModuleFunctions() {
+		if load.FuncPkgRel(fn) == "internal/sync" {
+			continue
+		}
+		// Put sites: direct calls and defers in fn or its closures are handled in the function that
+		// contains them; the pooled value is the Put argument (through MakeInterface)
+		type putSite struct {
+			ins  ssa.Instruction
+			arg  ssa.Value
+			isDf bool
+		}
+		var puts []putSite
+		for _, b := range fn.Blocks {
+			for _, ins := range b.Instrs {
+				var cc *ssa.CallCommon
+				isDf := false
+				switch x := ins.(type) {
+				case *ssa.Call:
+					cc = &x.Call
+				case *ssa.Defer:
+					cc, isDf = &x.Call, true
+				}
+				if cc == nil || !isPoolPut(cc) || len(cc.Args) < 2 {
+					continue
+				}
+				arg := cc.Args[len(cc.Args)-1]
+				if mi, ok := arg.(*ssa.MakeInterface); ok {
+					arg = mi.X
+				}
+				puts = append(puts, putSite{ins, arg, isDf})
+			}
+		}
+		for i, p := range puts {
+			key := fmt.Sprintf("afterput|%s|put#%d", load.FuncKey(fn), i+1)
+			var late []string
+			same := func(v ssa.Value) bool { return v == p.arg || sameOrigin(v, p.arg) }
+			usesObj := func(ins ssa.Instruction) bool {
+				for _, op := range ins.Operands(nil) {
+					if *op != nil && same(*op) {
+						return true
+					}
+				}
+				return false
+			}
+			for _, b := range fn.Blocks {
+				for _, ins := range b.Instrs {
+					if ins == p.ins || !usesObj(ins) {
+						continue
+					}
+					if _, isDbg := ins.(*ssa.DebugRef); isDbg {
+						continue
+					}
+					switch {
+					case !p.isDf:
+						// a plain Put: later uses on any path (dominated instructions)
+						if dominatesInstr(p.ins, ins) {
+							if d, isDefer := ins.(*ssa.Defer); !isDefer || d != nil {
+								late = append(late, c.Pos(ins.Pos()))
+							}
+						}
+					default:
+						// a deferred Put runs before every defer registered earlier
+						if d, isDefer := ins.(*ssa.Defer); isDefer && dominatesInstr(d, p.ins) {
+							late = append(late, "deferred call at "+c.Pos(d.Pos())+" (registered earlier, so it runs after the Put)")
+						}
+					}
+				}
+			}
+			// defers registered before a closure that contains the Put are handled at the closure's
+			// function: find enclosing function's earlier defers using the captured object
+			if fn.Parent() != nil {
+				late = append(late, earlierDefersUsing(c, fn, p.arg)...)
+			}
+			if len(late) > 0 {
+				r.Bad(key, c.Pos(p.ins.Pos()), "the object is used after it was put back into the pool: "+strings.Join(uniq(late), "; ")+" — another goroutine may already own it")
+			} else {
+				r.OK(key, c.Pos(p.ins.Pos()), "nothing uses the object after the Put")
+			}
+		}
+	}
+}
+
+// earlierDefersUsing: fn is a closure deferred by its parent; defers of the parent registered before
+// it (which therefore run after it) that use the same captured variable.
+func earlierDefersUsing(c *load.Ctx, closure *ssa.Function, arg ssa.Value) []string {
+	parent := closure.Parent()
+	// which free variable does arg come from
+	fvIdx := -1
+	for depth, v := 0, arg; depth < 4; depth++ {
+		if u, ok := v.(*ssa.UnOp); ok {
+			v = u.X
+		}
+		if fv, ok := v.(*ssa.FreeVar); ok {
+			for i, f := range closure.FreeVars {
+				if f == fv {
+					fvIdx = i
+				}
+			}
+			break
+		}
+	}
+	if fvIdx < 0 {
+		return nil
+	}
+	var out []string
+	for _, b := range parent.Blocks {
+		for _, ins := range b.Instrs {
+			d, ok := ins.(*ssa.Defer)
+			if !ok {
+				continue
+			}
+			mc, ok := d.Call.Value.(*ssa.MakeClosure)
+			if !ok || mc.Fn != closure {
+				continue
+			}
+			captured := mc.Bindings[fvIdx]
+			// earlier defers in the parent using the captured cell's value
+			for _, b2 := range parent.Blocks {
+				for _, ins2 := range b2.Instrs {
+					d2, ok := ins2.(*ssa.Defer)
+					if !ok || d2 == d || !dominatesInstr(d2, d) {
+						continue
+					}
+					for _, op := range d2.Operands(nil) {
+						if *op != nil && (*op == captured || sameOrigin(*op, captured) || loadsFrom(*op, captured)) {
+							out = append(out, "deferred call at "+c.Pos(d2.Pos())+" (registered earlier, so it runs after the Put)")
+						}
+					}
+				}
+			}
+		}
+	}
+	return out
+}
+
+func loadsFrom(v, cell ssa.Value) bool {
+	if u, ok := v.(*ssa.UnOp); ok {
+		return u.X == cell
+	}
+	return false
+}
+
+func runSW3(c *load.Ctx, r *report.RuleResult) {
+	sp := c.SSAPkg("internal/sync")
+	if sp == nil {
+		r.Unk("anchor|internal/sync", "", "package not found")
+		return
+	}
+	n := 0
+	doneOnce := map[string]bool{}
+	for _, fn := range c.ModuleFunctions() {
+		if load.FuncPkgRel(fn) != "internal/sync" || fn.Name() != "Do" || fn.Signature.Recv() == nil || fn.Parent() != nil || (fn.Synthetic != "" && !strings.HasPrefix(fn.Synthetic, "instance")) {
+			continue
+		}
+		kf := fn
+		if o := fn.Origin(); o != nil {
+			kf = o
+		}
+		key := "once|" + load.FuncKey(kf)
+		if doneOnce[key] {
+			continue // one instance of a generic wrapper stands for all
+		}
+		doneOnce[key] = true
+		n++
+		pos := c.Pos(fn.Pos())
+		if len(fn.Params) < 2 {
+			r.Unk(key, pos, "Do without a function parameter")
+			continue
+		}
+		fparam := fn.Params[1]
+		var onceCall *ssa.Call
+		directCall := false
+		for _, b := range fn.Blocks {
+			for _, ins := range b.Instrs {
+				call, ok := ins.(*ssa.Call)
+				if !ok {
+					continue
+				}
+				if call.Call.Value == fparam {
+					directCall = true
+				}
+				if sc := call.Call.StaticCallee(); sc != nil && sc.String() == "(*sync.Once).Do" {
+					onceCall = call
+				}
+			}
+		}
+		switch {
+		case onceCall == nil:
+			r.Bad(key, pos, "Do is not built on (*sync.Once).Do any more: exactly-once execution and the guarantee that a caller sees the result only after the function has returned are no longer inherited from sync.Once")
+			continue
+		case directCall:
+			r.Bad(key, pos, "the caller's function is also invoked outside the sync.Once")
+			continue
+		}
+		mc, ok := onceCall.Call.Args[1].(*ssa.MakeClosure)
+		if !ok {
+			r.Bad(key, pos, "sync.Once.Do is not given a function literal that runs the caller's function")
+			continue
+		}
+		cl := mc.Fn.(*ssa.Function)
+		calls, stores := false, 0
+		for _, b := range cl.Blocks {
+			for _, ins := range b.Instrs {
+				switch x := ins.(type) {
+				case *ssa.Call:
+					if derivesFromParam(x.Call.Value) {
+						calls = true
+					}
+				case *ssa.Store:
+					if _, ok := x.Addr.(*ssa.FieldAddr); ok {
+						stores++
+					}
+				}
+			}
+		}
+		// results are read only after the Once call
+		readsBefore := false
+		for _, b := range fn.Blocks {
+			for _, ins := range b.Instrs {
+				if u, ok := ins.(*ssa.UnOp); ok {
+					if _, isField := u.X.(*ssa.FieldAddr); isField && !dominatesInstr(onceCall, u) {
+						readsBefore = true
+					}
+				}
+			}
+		}
+		switch {
+		case !calls:
+			r.Bad(key, pos, "the function handed to sync.Once.Do does not run the caller's function")
+		case stores == 0:
+			r.Bad(key, pos, "the results are not stored inside the once-function")
+		case readsBefore:
+			r.Bad(key, pos, "a stored result is read before the sync.Once call")
+		default:
+			r.OK(key, pos, fmt.Sprintf("runs the caller's function inside sync.Once.Do, stores %d result field(s) there, reads them afterwards", stores))
+		}
+	}
+	if n == 0 {
+		r.Unk("once|internal/sync", "", "no Do method found in internal/sync")
+	}
+}
